@@ -151,6 +151,9 @@ def tlc(module, cfg, workers=None, timeout=900, simulate=None, depth=None, seed=
                 res.violated = m.group(1)
             if "is violated" in line and res.violated is None and line.startswith("Error:"):
                 res.violated = line.strip()
+            m = re.match(r"Error: Postcondition (\S+) .* is false", line)
+            if m and res.violated is None:
+                res.violated = m.group(1)
             m = re.match(r"<(\w+) line \d+, col \d+ to line \d+, col \d+ of module (\w+)>: (\d+):(\d+)", line)
             if m:
                 res.coverage[m.group(1)] = res.coverage.get(m.group(1), 0) + int(m.group(4))
